@@ -7,7 +7,7 @@ Property theorems only.  Model: `Verif.Model.Css` (behavioural model of `/repo/c
 correspondence stage `decl`); specification: `Verif.Spec.CssValue` (denotations of CSS values).
 -/
 namespace Verif.Props.C04
-open Verif.Spec.CssValue Verif.Model.Css Verif.Proofs.Css Verif.Gen.C04Tables
+open Verif.Spec.CssValue Verif.Model.Css Verif.Proofs.Css Verif.Gen.C04Tables Verif.Model.CssNum
 
 /-! ## (a) 1–4 values: `margin`, `padding`, `border-width` -/
 
@@ -767,5 +767,23 @@ example : minifyBgPosition [tIdent (S "right"), tPct (S "10%"), tIdent (S "botto
     position [tIdent (S "right"), tPct (S "10%"), tIdent (S "bottom"), tPct (S "20%")] = some (pct 90, pct 80) ∧
     position [tPct (S "90%"), tPct (S "80%")] = some (pct 90, pct 80) := by
   decide +kernel
+
+/-! ## numbers under KeepCSS2 -/
+
+/-- **KeepCSS2 number syntax**: with `KeepCSS2` a number lexeme without exponent is minified without
+    introducing one (CSS 2.1 has no exponent notation); lexemes that already have one go through `Number`
+    (fix ddd07ad + 30f2f83) -/
+theorem keepcss2_no_exponent (s : List Char) (h : s.any isExpChar = false) :
+    (num ⟨true⟩ s).any isExpChar = false := by
+  simp only [num, h, Bool.not_false, Bool.and_self, if_true]
+  rw [List.any_eq_false] at h ⊢
+  intro c hc
+  rcases decimal0_chars s c hc with e | e | e | e
+  · exact h c e
+  · subst e; decide
+  · subst e; decide
+  · subst e; decide
+
+example : num ⟨true⟩ (S "00.50") = S ".5" ∧ num ⟨true⟩ (S "100000") = S "100000" ∧ num ⟨false⟩ (S "100000") = S "1e5" := by decide
 
 end Verif.Props.C04
